@@ -236,42 +236,71 @@ func c11Program(handler string, body []ast.Stmt) ([]string, error) {
 	return p.out, nil
 }
 
-// the parameter named `handler` exists
-func c11HasHandlerParam(fn *ast.FuncDecl) bool {
-	for _, fl := range fn.Type.Params.List {
-		for _, n := range fl.Names {
-			if n.Name == "handler" {
-				return true
-			}
-		}
+// the user function = the last parameter of the converter / of ProcessState
+func c11HandlerParam(fn *ast.FuncDecl) string {
+	l := fn.Type.Params.List
+	if len(l) == 0 || len(l[len(l)-1].Names) == 0 {
+		return ""
 	}
-	return false
+	names := l[len(l)-1].Names
+	if n := names[len(names)-1].Name; n != "_" {
+		return n
+	}
+	return ""
 }
 
-// converter: `rf := func(...) {...}` followed by `return runnableLambda[..](.. rf ..)`
-func c11Converter(f *ast.File, name string) ([]string, error) {
+func c11LockRelevant(n ast.Node) bool {
+	found := false
+	ast.Inspect(n, func(x ast.Node) bool {
+		if id, ok := x.(*ast.Ident); ok {
+			switch id.Name {
+			case "getState", "Lock", "Unlock", "TryLock", "internalState", "stateKey":
+				found = true
+			}
+		}
+		return !found
+	})
+	return found
+}
+
+// converter: `rf := func(...) {...}` followed by `return runnableLambda[..](.. rf ..)`, or the closure
+// written in place of rf; the closure may hand the work to a helper of state.go (`return h(ctx, in, handler)`),
+// which is inlined
+func c11Converter(repo string, f *ast.File, name string) ([]string, error) {
 	fn := c11TopFunc(f, name)
 	if fn == nil || fn.Body == nil {
 		return nil, fmt.Errorf("func %s not found", name)
 	}
-	if !c11HasHandlerParam(fn) {
-		return nil, fmt.Errorf("%s: no parameter `handler`", name)
+	handler := c11HandlerParam(fn)
+	if handler == "" || len(fn.Type.Params.List) != 1 || len(fn.Type.Params.List[0].Names) != 1 {
+		return nil, fmt.Errorf("%s: expected one parameter, the user function", name)
 	}
-	if len(fn.Body.List) != 2 {
+	var lit *ast.FuncLit
+	var ret *ast.ReturnStmt
+	clo := ""
+	switch len(fn.Body.List) {
+	case 2:
+		as, ok := fn.Body.List[0].(*ast.AssignStmt)
+		if !ok || len(as.Lhs) != 1 || len(as.Rhs) != 1 || as.Tok != token.DEFINE {
+			return nil, fmt.Errorf("%s: first statement is not `rf := func…`", name)
+		}
+		lit, ok = as.Rhs[0].(*ast.FuncLit)
+		clo = c11Ident(as.Lhs[0])
+		if !ok || clo == "" {
+			return nil, fmt.Errorf("%s: first statement is not `rf := func…`", name)
+		}
+		ret, ok = fn.Body.List[1].(*ast.ReturnStmt)
+		if !ok || len(ret.Results) != 1 {
+			return nil, fmt.Errorf("%s: second statement is not a return", name)
+		}
+	case 1:
+		var ok bool
+		ret, ok = fn.Body.List[0].(*ast.ReturnStmt)
+		if !ok || len(ret.Results) != 1 {
+			return nil, fmt.Errorf("%s: not `return runnableLambda(func…)`", name)
+		}
+	default:
 		return nil, fmt.Errorf("%s: %d statements, expected `rf := func…` and a return", name, len(fn.Body.List))
-	}
-	as, ok := fn.Body.List[0].(*ast.AssignStmt)
-	if !ok || len(as.Lhs) != 1 || len(as.Rhs) != 1 || as.Tok != token.DEFINE {
-		return nil, fmt.Errorf("%s: first statement is not `rf := func…`", name)
-	}
-	lit, ok := as.Rhs[0].(*ast.FuncLit)
-	clo := c11Ident(as.Lhs[0])
-	if !ok || clo == "" {
-		return nil, fmt.Errorf("%s: first statement is not `rf := func…`", name)
-	}
-	ret, ok := fn.Body.List[1].(*ast.ReturnStmt)
-	if !ok || len(ret.Results) != 1 {
-		return nil, fmt.Errorf("%s: second statement is not a return", name)
 	}
 	call, ok := ret.Results[0].(*ast.CallExpr)
 	if !ok || c11Callee(call) != "runnableLambda" {
@@ -279,16 +308,26 @@ func c11Converter(f *ast.File, name string) ([]string, error) {
 	}
 	uses := 0
 	for _, a := range call.Args {
-		if c11Ident(a) == clo {
+		if l, isLit := a.(*ast.FuncLit); isLit && clo == "" {
+			lit = l
 			uses++
-		} else if c11Ident(a) == "handler" {
+		} else if clo != "" && c11Ident(a) == clo {
+			uses++
+		} else if c11Ident(a) == handler {
 			return nil, fmt.Errorf("%s: the bare user function is handed to runnableLambda", name)
+		} else if c11HasCall(a) {
+			return nil, fmt.Errorf("%s: runnableLambda is given %s", name, types.ExprString(a))
 		}
 	}
-	if uses != 1 {
+	if uses != 1 || lit == nil {
 		return nil, fmt.Errorf("%s: the closure is handed to runnableLambda %d times", name, uses)
 	}
-	prog, err := c11Program("handler", lit.Body.List)
+	body, _, err := c11Prepare(repo, []string{"compose", "state.go"}, &ast.FuncDecl{Name: fn.Name, Type: lit.Type, Body: lit.Body},
+		c11LockRelevant, c11NormOpts{keep: map[string]bool{"getState": true}})
+	if err != nil {
+		return nil, fmt.Errorf("%s: %v", name, err)
+	}
+	prog, err := c11Program(handler, body)
 	if err != nil {
 		return nil, fmt.Errorf("%s: %v", name, err)
 	}
@@ -417,17 +456,21 @@ func c11ExtractStateLock(repo string) (string, string, error) {
 	b.WriteString("Definition cs_prog (w : wrapper) : list cstmt :=\n  match w with\n")
 	for _, w := range []wr{{"WPre", "convertPreHandler"}, {"WPost", "convertPostHandler"},
 		{"WSPre", "streamConvertPreHandler"}, {"WSPost", "streamConvertPostHandler"}} {
-		prog, err := c11Converter(f, w.fn)
+		prog, err := c11Converter(repo, f, w.fn)
 		if err != nil {
 			return "", "", err
 		}
 		fmt.Fprintf(&b, "  | %s => [%s]    (* %s *)\n", w.ctor, strings.Join(prog, "; "), w.fn)
 	}
 	ps := c11TopFunc(f, "ProcessState")
-	if ps == nil || ps.Body == nil || !c11HasHandlerParam(ps) {
+	if ps == nil || ps.Body == nil || c11HandlerParam(ps) == "" || len(ps.Type.Params.List) != 2 {
 		return "", "", fmt.Errorf("func ProcessState(ctx, handler) not found")
 	}
-	prog, err := c11Program("handler", ps.Body.List)
+	psBody, _, err := c11Prepare(repo, []string{"compose", "state.go"}, ps, c11LockRelevant, c11NormOpts{keep: map[string]bool{"getState": true}})
+	if err != nil {
+		return "", "", fmt.Errorf("ProcessState: %v", err)
+	}
+	prog, err := c11Program(c11HandlerParam(ps), psBody)
 	if err != nil {
 		return "", "", fmt.Errorf("ProcessState: %v", err)
 	}
